@@ -23,6 +23,17 @@ def c07(ck, tier, seed):
     ck.sample_from(files)
     results = vlib.validate("TraceManager", files, ["C07"])
     ck.add_validation(results, driver_cmd=cmds)
+    # a kind with a dynamic terminal manager: MTBDD<I64> arithmetic whose results are constants referenced by
+    # nothing else, against a collector thread (terminals are swept after the inner nodes); TraceMV
+    od = os.path.join(ck.outdir, "mtconc")
+    res = vlib.run_driver(binary, "mtconc", {"seed": seed * 7 + 1, "tier": tier}, od, timeout=900)
+    mfiles = ck.add_driver(res)
+    ck.add_validation(vlib.validate("TraceMV", mfiles, ["C07"]), driver_cmd=[" ".join(map(str, res["cmd"]))])
+    ck.cov["rule"] += ("; MTBDD<I64>: 2..4 threads apply add/sub/mul/min/max to 24-40 shared operand pairs (f, K - f) and drop "
+                       "the results at once while a collector thread runs gc() every 20-220 microseconds (2..8 pool workers, cache "
+                       "1/64/1024, schedule perturbation hook); every result (graph, eval table, node count) is validated against "
+                       "the pointwise lifting (conc.sem, conc.eval, conc.canon, conc.graph), at quiescence every operand is "
+                       "re-projected (conc.stable) and the collection must be exact for inner nodes and terminals")
     import checks
     checks.store_mc(ck, tier)
     ck.assumptions += ["schedules are those the OS produced (sampling); weak-memory effects are not modelled",
